@@ -130,7 +130,7 @@ func e6(depth int) {
 				}()
 				// the request is "selected" when its first attempt arrives somewhere; a held request stays there
 				var first []string
-				ok := stack.Eventually(5*time.Second, func() bool {
+				ok := stack.Eventually(15*time.Second, func() bool {
 					w.mu.Lock()
 					first = append([]string{}, w.first...)
 					holding := w.hold
@@ -149,7 +149,7 @@ func e6(depth int) {
 				res.Add("evaluations", 1)
 				res.Add("transitions", 1)
 				if !ok || len(first) == 0 {
-					res.Violate("request-not-dispatched", map[string]any{"part": "E6", "strategy": "least-connections"}, fmt.Sprintf("%s: step %d: no attempt arrived at any backend within 5 s", name, step+1),
+					res.Violate("request-not-dispatched", map[string]any{"part": "E6", "strategy": "least-connections"}, fmt.Sprintf("%s: step %d: no attempt arrived at any backend within 15 s", name, step+1),
 						map[string]any{"engine": "ops-stack", "world": engine, "history": append([]string{}, h[:step+1]...)})
 					bad = true
 					return
